@@ -361,7 +361,7 @@ func execC17X(c *vf.Ctx, d *vf.Driver, cs c17xCase) {
 }
 
 func runC17X(c *vf.Ctx) {
-	n := c.Budget(24000, 400000)
+	n := c.Budget(24000, 160000)
 	if SearchMode() {
 		n *= 4
 	}
